@@ -34,6 +34,7 @@ type c18Plan struct {
 	Ops     []c18Op   `json:"ops"`
 	Ops2    []c18Op   `json:"ops_of_second_admin,omitempty"`
 	Duel    bool      `json:"both_admins_on_one_route,omitempty"`
+	Adder2  bool      `json:"second_admin_adds_routes,omitempty"`
 	Clients int       `json:"clients"`
 	Lines   int       `json:"lines_per_client"`
 }
@@ -244,6 +245,15 @@ func scenC18(x *Exec) {
 					}
 				}
 			}
+		}
+		if !p.Duel && g.Bool(0.5) {
+			// variant: the second admin adds routes (keys of its own), i.e. both admins change the table's own lists at
+			// once; with two adders the listing order of the new routes is either one's, so the view is compared by key
+			p.Adder2 = true
+			for i, n := 0, 2+g.Intn(5); i < n; i++ {
+				p.Ops2 = append(p.Ops2, c18Op{Kind: "addRoute", Key: fmt.Sprintf("rz%d", i), F: genFilter(g, 0.3)})
+			}
+			free = nil
 		}
 		for i, n := 0, 2+g.Intn(8); i < n && len(free) > 0; i++ {
 			key := free[g.Pick(len(free))]
@@ -464,7 +474,7 @@ func scenC18(x *Exec) {
 					continue
 				}
 				if seqErr == "" {
-					seqErr = compareSnapshot(snap.Routes, len(snap.Blacklist), len(snap.Rewriters), len(snap.Aggregators), cur, naggs)
+					seqErr = compareSnapshot(snap.Routes, len(snap.Blacklist), len(snap.Rewriters), len(snap.Aggregators), cur, naggs, p.Adder2)
 					if seqErr != "" {
 						seqErr = fmt.Sprintf("after operation %+v: %s", op, seqErr)
 					}
@@ -536,7 +546,7 @@ func scenC18(x *Exec) {
 			// with both admins finished the view must be the result of all their operations
 			snap := bt.T.Snapshot()
 			simrt.Yield("snapshot")
-			if d := compareSnapshot(snap.Routes, len(snap.Blacklist), len(snap.Rewriters), len(snap.Aggregators), versions[len(versions)-1], naggs); d != "" {
+			if d := compareSnapshot(snap.Routes, len(snap.Blacklist), len(snap.Rewriters), len(snap.Aggregators), versions[len(versions)-1], naggs, p.Adder2); d != "" {
 				seqErr = "after all operations: " + d
 			}
 		}
@@ -662,18 +672,49 @@ func describeObs(o interface{}) string {
 	return string(b)
 }
 
-func compareSnapshot(routes interface{}, nbl, nrw, nagg int, cur *TablePlan, wantAggs int) string {
+func compareSnapshot(routes interface{}, nbl, nrw, nagg int, cur *TablePlan, wantAggs int, byKey bool) string {
 	b, _ := json.Marshal(routes)
+	type snapFilter struct {
+		Prefix    string `json:"prefix"`
+		NotPrefix string `json:"notPrefix"`
+		Sub       string `json:"sub"`
+		NotSub    string `json:"notSub"`
+		Regex     string `json:"regex"`
+		NotRegex  string `json:"notRegex"`
+	}
 	var rs []struct {
-		Key   string `json:"key"`
-		Type  string `json:"type"`
-		Dests []struct {
-			Address string `json:"address"`
+		Key     string     `json:"key"`
+		Type    string     `json:"type"`
+		Matcher snapFilter `json:"matcher"`
+		Dests   []struct {
+			Address string     `json:"address"`
+			Matcher snapFilter `json:"matcher"`
 		} `json:"destination"`
+	}
+	same := func(a snapFilter, f FilterSpec) bool {
+		return a.Prefix == f.Prefix && a.NotPrefix == f.NotPrefix && a.Sub == f.Sub && a.NotSub == f.NotSub && a.Regex == f.Regex && a.NotRegex == f.NotRegex
 	}
 	json.Unmarshal(b, &rs)
 	if len(rs) != len(cur.Routes) {
 		return fmt.Sprintf("the table lists %d routes, expected %d", len(rs), len(cur.Routes))
+	}
+	if byKey {
+		// two admins were adding routes at once: the listing order of those is either's
+		pos := map[string]int{}
+		for i, r := range rs {
+			pos[r.Key] = i
+		}
+		sorted := make([]RouteSpec, len(rs))
+		for _, want := range cur.Routes {
+			i, ok := pos[want.Key]
+			if !ok {
+				return fmt.Sprintf("route %q is missing from the table view", want.Key)
+			}
+			sorted[i] = want
+		}
+		c2 := *cur
+		c2.Routes = sorted
+		cur = &c2
 	}
 	for i, r := range rs {
 		if r.Key != cur.Routes[i].Key {
@@ -682,12 +723,18 @@ func compareSnapshot(routes interface{}, nbl, nrw, nagg int, cur *TablePlan, wan
 		if cur.Routes[i].Type == "capture" {
 			continue
 		}
+		if !same(r.Matcher, cur.Routes[i].F) {
+			return fmt.Sprintf("route %q shows the filter %+v, expected %+v", r.Key, r.Matcher, cur.Routes[i].F)
+		}
 		if len(r.Dests) != len(cur.Routes[i].Dests) {
 			return fmt.Sprintf("route %q lists %d destinations, expected %d", r.Key, len(r.Dests), len(cur.Routes[i].Dests))
 		}
 		for di, d := range r.Dests {
 			if d.Address != cur.Routes[i].Dests[di].Addr {
 				return fmt.Sprintf("route %q destination #%d is %q, expected %q", r.Key, di, d.Address, cur.Routes[i].Dests[di].Addr)
+			}
+			if !same(d.Matcher, cur.Routes[i].Dests[di].F) {
+				return fmt.Sprintf("route %q destination #%d shows the filter %+v, expected %+v", r.Key, di, d.Matcher, cur.Routes[i].Dests[di].F)
 			}
 		}
 	}
@@ -732,8 +779,31 @@ func explainLine(versions []*TablePlan, lo, hi int, rawName string, obs map[stri
 		for _, r := range tp.Routes {
 			inList[r.Key] = true
 		}
+		// routes the second admin adds ("rz…") commit in an order of their own relative to the first admin's operations: within
+		// the window such a route may already or not yet be in the table whatever version the rest of the table is at
+		inWindow := func(key string) (some, all bool, accept bool) {
+			all = true
+			for v := lo; v <= hi; v++ {
+				found := false
+				for _, rv := range versions[v].Routes {
+					if rv.Key == key {
+						found, some = true, true
+						if RefMatch(rv.F, name) {
+							accept = true
+						}
+					}
+				}
+				if !found {
+					all = false
+				}
+			}
+			return
+		}
 		for key := range obs {
 			if !inList[key] {
+				if some, _, accept := inWindow(key); strings.HasPrefix(key, "rz") && some && accept {
+					continue
+				}
 				ok = false
 				last = fmt.Sprintf("version %d of the table has no route %s but it delivered the line", vt, key)
 			}
@@ -741,6 +811,11 @@ func explainLine(versions []*TablePlan, lo, hi int, rawName string, obs map[stri
 		for _, r := range tp.Routes {
 			if !ok {
 				break
+			}
+			if strings.HasPrefix(r.Key, "rz") && len(obs[r.Key]) == 0 {
+				if _, all, _ := inWindow(r.Key); !all {
+					continue // not (yet) in the table as far as this line is concerned
+				}
 			}
 			// matcher versions of this route within the window
 			canAccept, canReject := false, false
